@@ -308,7 +308,8 @@ def run_impl(case):
                         partners = [e[1:] for e in links[ai][1] if e[0] == inst_i]
                         if partners and partners[0]:
                             other = model.insts[partners[0][0]]
-                            cands.add(getattr(other, pk))
+                            pv = getattr(other, pk)     # may itself be referential and unset (a chain of keys)
+                            cands.add(pv if pv is not None else Sym('none'))
                 if not cands:
                     if not (v == Sym('none')):
                         fail('referential-read', '%s.%s of unlinked instance %d reads %r, not unset' % (
